@@ -20,6 +20,7 @@ RULE = ("Hypothesis: (configuration, piece, partitions). Bars are obtained eithe
         "per track, to the same notes (pitch, on, off, velocity), the same INTERNAL bar ticks and the same duration. "
         "Non-trivial: >= 2 groups and one of {signature change, empty bar, bar whose only onsets are on tick 0, cut note}. "
         "Distinct by case digest.")
+RULE = RULE + " Round i: tokeniser ppqn 24/48/96 on the raw route."
 ASSUMPTIONS = ["only whole-bar chunking is in scope; the state dict is opaque",
                "a piece the single call rejects is inconclusive here (acceptance is C01's clause)"]
 TIERS = {"quick": dict(shards=8, examples=500, all_partitions=False),
@@ -29,8 +30,10 @@ TIERS = {"quick": dict(shards=8, examples=500, all_partitions=False),
 @st.composite
 def _case(draw, shard, nshards, all_partitions):
     cfg = draw(T.config(shard=shard, nshards=nshards, max_tracks=3))
-    cfg["ppqn"] = None      # Bar / sequences_split_bars lay bars out with the library resolution
     route = draw(st.sampled_from(["split", "direct", "raw"]))
+    # Bar / sequences_split_bars lay bars out with the library resolution; chunks cut out of the raw tracks do not depend on it,
+    # so the tokeniser's own resolution may differ there
+    cfg["ppqn"] = draw(st.sampled_from([None, None, 24, 48, 96])) if route == "raw" else None
     piece = draw(T.piece(cfg, allow_crossing=(route == "split" and cfg["note_values"] is None), noise=False,
                          min_bars=draw(st.sampled_from([1, 2, 2, 3, 4])), spread=(route == "raw")))
     if route == "raw":
